@@ -125,6 +125,9 @@ pub enum Ins {
   /// fully private Ed25519 JWK that copies the PUBLIC JWK returned by `generate` for the slot (x, kid = that key's
   /// thumbprint, alg) and carries the `d` of harness key 5: its public part equals a generated key's
   XOf(u8),
+  /// fully private EC JWK on curve BLS12381G2 (a key type the stores know, usable with BBS+ proof algorithms only)
+  /// whose alg is a JWS signature algorithm: no JWS algorithm is compatible with that key type
+  BlsKey(Ga),
 }
 /// The `public_key` argument of `sign`.
 #[derive(Serialize, Deserialize, Debug, Clone, Copy, PartialEq, Eq, Hash)]
@@ -244,6 +247,19 @@ fn insert_jwk(v: Ins, gen_public: Option<&Jwk>) -> Jwk {
     Ins::NoAlg => EdKey::new(3).private,
     Ins::WrongAlg => EdKey::new(3).private_with_alg("ES256"),
     Ins::EcKey => p256_private_jwk(),
+    Ins::BlsKey(a) => {
+      let mut params = JwkParamsEc::new();
+      params.crv = "BLS12381G2".to_string();
+      params.x = b64([0x11u8; 96]);
+      params.y = b64([0x22u8; 96]);
+      params.d = Some(b64([0x33u8; 32]));
+      let mut j = Jwk::from_params(params);
+      j.set_alg(match a {
+        Ga::EdDsa => "EdDSA",
+        Ga::Es256 => "ES256",
+      });
+      j
+    }
     Ins::MalformedD => {
       let mut j = EdKey::new(3).private_with_alg("EdDSA");
       j.try_okp_params_mut().expect("okp").d = Some(b64([1u8, 2, 3]));
@@ -714,6 +730,10 @@ impl<B: Backend> KModel<B> {
               self.col.outcome("insert(ec-key):ok(unjudged)");
               return None;
             }
+            Ins::BlsKey(a) => {
+              viol("JwkStorage::insert|incompatible-alg|accepted", format!("a BLS12381G2 JWK with the JWS alg {a:?} was stored"));
+              ok = false;
+            }
           }
           label = format!("insert({}):ok", ins_name(*v));
         }
@@ -918,6 +938,8 @@ fn ins_name(v: Ins) -> &'static str {
     Ins::ValidKid(_) => "valid-private-with-kid",
     Ins::UnknownAlg => "unregistered-alg",
     Ins::XOf(_) => "public-part-of-a-generated-key",
+    Ins::BlsKey(Ga::EdDsa) => "bls-key-with-EdDSA",
+    Ins::BlsKey(Ga::Es256) => "bls-key-with-ES256",
   }
 }
 fn pk_name(p: Pk) -> &'static str {
@@ -950,7 +972,7 @@ impl<B: Backend> Model for KModel<B> {
     for (k, a) in [(Gk::Ed25519, Ga::Es256), (Gk::Bls12381G2, Ga::EdDsa), (Gk::Bls12381G2, Ga::Es256), (Gk::Bogus, Ga::EdDsa), (Gk::Bogus, Ga::Es256)] {
       out.push(KOp::Generate(k, a));
     }
-    for v in [Ins::PublicOnly, Ins::NoAlg, Ins::WrongAlg, Ins::EcKey] {
+    for v in [Ins::PublicOnly, Ins::NoAlg, Ins::WrongAlg, Ins::EcKey, Ins::BlsKey(Ga::EdDsa), Ins::BlsKey(Ga::Es256)] {
       out.push(KOp::Insert(v));
     }
     for slot in (0..n).chain([NEVER]) {
